@@ -6,6 +6,7 @@ import (
 	"go/types"
 	"sort"
 	"strings"
+	"tinkverif/bounds"
 
 	"golang.org/x/tools/go/ssa"
 
@@ -59,6 +60,7 @@ func c14(c *Ctx) {
 		"(keypair) every validate…PrivateKey function compares, on every success path, the public key derived from the private material with the stored public key; " +
 		"(bigint) every narrowing of a big integer parsed from key material (Int64/Uint64) is dominated by the matching IsInt64/IsUint64 check on the same value, so oversized RSA exponents cannot be truncated into acceptable ones. " +
 		"(fixedkey) crypto/ed25519 panics on key material of the wrong length: the Ed25519 key constructors, folded with the length of their key-material argument bound to 0, 31, 32, 33 and 64, succeed for 32 only. " +
+		"(strslice) every slicing of a string in product code (type URLs, kids, names of untrusted keysets) is proved in bounds from the guards that dominate it (strings.HasPrefix / length tests), so a short or odd string cannot panic handle construction or monitoring; " +
 		"Not decided: absence of run-time panics in general (index arithmetic in loops, stdlib), self-consistency of created primitives (behavioural)."
 	c14Validate(c)
 	c14Enums(c)
@@ -68,6 +70,7 @@ func c14(c *Ctx) {
 	c14KeyPair(c)
 	c14NilMsg(c)
 	c14FixedKey(c)
+	c14StrSlice(c)
 }
 
 // ---------------------------------------------------------------- validate
@@ -714,6 +717,32 @@ func c14KeyPair(c *Ctx) {
 				good = false
 			}
 		}
+		// the stored public key enters the comparison as it is: no element store into a buffer
+		// derived from it (a copy with a bit cleared would make distinct stored keys compare equal)
+		altered := ""
+		allInstrs(f, func(ins ssa.Instruction) {
+			st, ok := ins.(*ssa.Store)
+			if !ok {
+				return
+			}
+			ia, isIA := st.Addr.(*ssa.IndexAddr)
+			if !isIA {
+				return
+			}
+			base := guard.Strip(ia.X)
+			for i := 0; i < 4; i++ {
+				if sl, isSl := base.(*ssa.Slice); isSl {
+					base = guard.Strip(sl.X)
+				}
+			}
+			if derivesFrom(base, pub, 0) {
+				altered = p.Pos(ins.Pos())
+			}
+		})
+		if altered != "" {
+			r.Bad("C14.keypair", key, p.FuncPos(f), "the stored public key is altered (element store at "+altered+") before it is compared with the key derived from the private material: stored public keys that differ in the altered bits are accepted although the primitives use the stored bytes")
+			continue
+		}
 		r.Check(good, "C14.keypair", key, p.FuncPos(f), "a private key can be accepted on a path that never compares the public key derived from it with the stored public key: a handle whose halves do not match would be accepted", "every success path has an equality check against the public key")
 	}
 	r.Counts["private_key_validators"] = n
@@ -766,4 +795,42 @@ func c14FixedKey(c *Ctx) {
 		}
 		r.Check(bad == "", "C14.fixedkey", key, p.FuncPos(f), bad, fmt.Sprintf("succeeds for %d bytes only (probed 0, %d, %d, %d, %d)", row.size, row.size-1, row.size, row.size+1, 2*row.size))
 	}
+}
+
+// c14StrSlice: strings that come out of untrusted keysets (type URLs, kids,
+// algorithm names) are sliced in a handful of places; each such slice
+// expression must be in bounds by the guards dominating it (engine D with
+// strings.HasPrefix/HasSuffix/CutPrefix as length facts).
+func c14StrSlice(c *Ctx) {
+	p, r := c.P, c.R
+	n := 0
+	for _, f := range p.SortedFuncs(core.Product) {
+		if f.Synthetic != "" {
+			continue
+		}
+		idx := 0
+		allInstrs(f, func(ins ssa.Instruction) {
+			sl, ok := ins.(*ssa.Slice)
+			if !ok {
+				return
+			}
+			bt, isB := sl.X.Type().Underlying().(*types.Basic)
+			if !isB || bt.Info()&types.IsString == 0 {
+				return
+			}
+			if _, isConst := sl.X.(*ssa.Const); isConst {
+				return
+			}
+			n++
+			idx++
+			res := bounds.CheckSlice(sl)
+			key := fmt.Sprintf("C14.strslice/%s/#%d", core.FuncID(f), idx)
+			if res.LoopVariant {
+				r.Outside("C14.strslice", key, p.Pos(ins.Pos()), "string re-sliced in a loop: outside the prover")
+				return
+			}
+			r.Check(res.OK, "C14.strslice", key, p.Pos(ins.Pos()), "a string is sliced without a dominating guard that keeps the bounds inside it: "+res.Failed+" — a shorter string panics", strings.Join(res.Goals, "; "))
+		})
+	}
+	r.Counts["string_slices"] = n
 }
